@@ -77,20 +77,20 @@ fn c10_k1_integer_action_d6() {
     integer_action_check::<8>(6);
 }
 
-//@ id: c10_k1_integer_action_d12
+//@ id: c10_k1_integer_action_d8
 //@ property: C10
 //@ tier: thorough
 //@ encodes: the `Integer` semantic action of parser.lalrpop (copied verbatim at run time), <i128 as FromStr>::from_str, IntegerLiteral::new
-//@ sym: token text matching [+-]?[0-9]{1,12}
+//@ sym: token text matching [+-]?[0-9]{1,8}
 //@ oracle: as c10_k1_integer_action_d6
-//@ bounds: <= 12 digits (20 and 40 symbolic digits did not finish in 40 min; the carrier limits are exercised by c10_k1_integer_action_boundaries); unwind 16
+//@ bounds: <= 8 digits (12, 20 and 40 symbolic digits did not finish in 40-50 min; the carrier limits are exercised by c10_k1_integer_action_boundaries); unwind 12
 //@ assumes: the LR driver passes exactly the lexer's IntLit text to the action
 //@ replay: playback
 //@ timeout: 3000
 #[kani::proof]
-#[kani::unwind(16)]
-fn c10_k1_integer_action_d12() {
-    integer_action_check::<14>(12);
+#[kani::unwind(12)]
+fn c10_k1_integer_action_d8() {
+    integer_action_check::<10>(8);
 }
 
 fn meta_integer_action_check<const N: usize>(max_digits: usize) {
@@ -123,19 +123,19 @@ fn c10_k1_meta_integer_action_d6() {
     meta_integer_action_check::<8>(6);
 }
 
-//@ id: c10_k1_meta_integer_action_d12
+//@ id: c10_k1_meta_integer_action_d8
 //@ property: C10
 //@ tier: thorough
 //@ encodes: the integer alternative of the `Meta` rule of parser.lalrpop (copied verbatim at run time), <i64 as FromStr>::from_str, Meta::integer
-//@ sym: token text matching [+-]?[0-9]{1,12}
+//@ sym: token text matching [+-]?[0-9]{1,8}
 //@ oracle: as c10_k1_meta_integer_action_d6
-//@ bounds: <= 12 digits; unwind 16
+//@ bounds: <= 8 digits; unwind 12
 //@ replay: playback
 //@ timeout: 3000
 #[kani::proof]
-#[kani::unwind(16)]
-fn c10_k1_meta_integer_action_d12() {
-    meta_integer_action_check::<14>(12);
+#[kani::unwind(12)]
+fn c10_k1_meta_integer_action_d8() {
+    meta_integer_action_check::<10>(8);
 }
 
 /// One escape `\c` (concrete c, constant call site) between plain characters.
@@ -247,19 +247,19 @@ fn c05_h7_integer_text_d6() {
     integer_action_check::<8>(6);
 }
 
-//@ id: c05_h7_integer_text_d12
+//@ id: c05_h7_integer_text_d8
 //@ property: C05
 //@ tier: thorough
 //@ encodes: the `Integer` semantic action of parser.lalrpop: literal text -> IntegerLiteral
-//@ sym: token text matching [+-]?[0-9]{1,12}
+//@ sym: token text matching [+-]?[0-9]{1,8}
 //@ oracle: as c05_h7_integer_text_d6
-//@ bounds: <= 12 digits; unwind 16
+//@ bounds: <= 8 digits; unwind 12
 //@ replay: playback
 //@ timeout: 3000
 #[kani::proof]
-#[kani::unwind(16)]
-fn c05_h7_integer_text_d12() {
-    integer_action_check::<14>(12);
+#[kani::unwind(12)]
+fn c05_h7_integer_text_d8() {
+    integer_action_check::<10>(8);
 }
 
 
